@@ -764,7 +764,21 @@ class Engine:
                 lab = e.args[0].value
                 return self.freeze(st.marks[lab], self.sev(e.args[1], st.marks[lab], bound))
             if n == 'implies':
-                a, b = self.sbool(e.args[0], st, bound), self.sbool(e.args[1], st, bound)
+                a = self.sbool(e.args[0], st, bound)
+                if z3.is_false(z3.simplify(a)):
+                    return VBool(z3.BoolVal(True))
+                try:
+                    b = self.sbool(e.args[1], st, bound)
+                except (EngineError, IndexError, KeyError, AttributeError):
+                    # the consequent cannot even be stated here (e.g. it indexes a result that has another shape on
+                    # this path): fine when the antecedent is impossible on this path, an error otherwise
+                    if not bound and smt.quick_unsat(list(st.pc) + [a], full=True):
+                        return VBool(z3.BoolVal(True))
+                    if bound:
+                        raise
+                    # the antecedent may hold but the consequent speaks about a value of another shape: the clause
+                    # can only hold if the antecedent does not (the obligation then fails instead of the checker)
+                    return VBool(z3.Not(a))
                 return VBool(z3.Implies(a, b))
             if n == 'iff':
                 return VBool(self.sbool(e.args[0], st, bound) == self.sbool(e.args[1], st, bound))
